@@ -4,6 +4,8 @@
     then the children named by the file on disk, then every shard the iterator finds) is pinned
     against the source by the translator (Generated/GenCheck.v). *)
 Require Import Sedpack.Model.Base Sedpack.Model.Integrity Sedpack.Proofs.IntegrityProofs Sedpack.Generated.GenCheck.
+Require Sedpack.Model.Meta Sedpack.Proofs.CheckProofs.
+Import Sedpack.Proofs.CheckProofs.
 
 (** Accepting: a committed tree (recorded digests are the digests of the stored documents and
     shard files, recursively) passes the check. *)
@@ -47,6 +49,15 @@ Definition bad_shard : fsys nat :=
 Definition bad_list : fsys nat :=
   {| f_list := fun p => match p with [9] => Some {| ld_shards := [(1, 41)]; ld_children := [] |} | _ => f_list nat good p end;
      f_shard := f_shard nat good |}.
+(** "After any successful writing history the integrity check passes" — over the session model of C04 (fillers into any directory,
+    multi-writer calls, the recursive merge): for every shard size and every history that completes, the model's [check] (digest of
+    every reachable list file against its parent's record, digest of every shard the depth-first traversal finds) returns true. *)
+Theorem c05_check_passes_after_every_history :
+  forall eps : nat, 1 <= eps -> forall (h : list Meta.session) (fs : Meta.fsT) (info : Meta.dinfo),
+    Meta.run_history eps h = Meta.Ok (fs, info) -> Meta.check fs info = true.
+Proof. exact history_check_passes. Qed.
+Print Assumptions c05_check_passes_after_every_history.
+
 Theorem c05_nonvacuous :
   check_shape_pinned = true /\
   check nat Nat.eqb enc 5 good [] (enc top) = true /\
